@@ -66,6 +66,7 @@ template<class T> requires __big<T>::v struct vector<T> : __bigflat<T, __cap<T>:
 template<class T> struct __aform { static constexpr bool v = false; };
 template<> struct __aform<Theo::Token> { static constexpr bool v = true; };
 template<> struct __aform<Theo::ParseError> { static constexpr bool v = true; };
+template<> struct __aform<unsigned int> { static constexpr bool v = true; };
 template<class F2, class E2> E2 __itget(const __iter<F2, E2>& f, long k) { return f.c->__get(f.i + k); }
 template<class T> const T& __itget(const T* f, long k) { return f[k]; }
 template<class T> requires __aform<T>::v struct vector<T> : __flat<T, __cap<T>::v> {
